@@ -301,6 +301,11 @@ def handleE2E (i o : List String) : String :=
       let negotiated : Bytes := match negotiatedResp registry env.pm sc.accept with
         | some m => m.mime
         | none => []
+      -- a success is served in the marshaler's type, or as text/event-stream when SSE was negotiated;
+      -- an error status always in the marshaler's type (one plain document, never an event)
+      let negotiatedSuccess : Bytes := match negotiatedResp registry env.pm sc.accept with
+        | some m => successType registry sc.accept m
+        | none => []
       let encOk : Bool := match r.err, sRec with
         | some e, some (_, ok, _) => ok == encodable negotiated (convert e)
         | _, _ => true
@@ -333,11 +338,13 @@ def handleE2E (i o : List String) : String :=
             | .bytes _ =>
               if r.ct.isSome then
                 match traverseFieldPath respFields sc.rbp with
-                | some sel => if obs.ct == some [negotiated] && obs.dm == showValue sel ra rb then none else some "success-body"
+                | some sel => if obs.ct == some [negotiatedSuccess] && obs.dm == showValue sel ra rb then none else some "success-body"
                 | none => none
               else none
             | .items sel cnt sse =>
-              if obs.ct == some [negotiated] && obs.dm == showItems sel cnt sse ra rb then none else some "stream-body"
+              if obs.ct != some [negotiatedSuccess] then some "stream-not-in-negotiated-content-type"
+              else if sse != negotiatedSSE registry sc.accept || obs.dm != showItems sel cnt (negotiatedSSE registry sc.accept) ra rb then some "stream-body"
+              else none
       -- 415: an unsupported Content-Type (no line names a registered type) is answered with 415
       let spec415 : Option String :=
         if sc.inj != .router && sc.inj != .bind && !env.pm.isEmpty && (negotiatedReq registry env.pm).isNone && obs.status != 415
